@@ -39,7 +39,8 @@ ASSUMPTIONS = [
 ]
 MINIMUMS = {
     'quick': {'evaluations': 3000, 'calls': 8000, 'af_nested_depth>=2': 150, 'override_of_factory_param': 100,
-              'af_invocations_checked': 3000, 'passthrough_identity_checked': 2000, 'nested_partial_probed': 200},
+              'af_invocations_checked': 3000, 'passthrough_identity_checked': 2000, 'nested_partial_probed': 200,
+              'failing_factory_calls': 100, 'concurrent_call_rounds': 100},
     'thorough': {'evaluations': 60000, 'af_nested_depth>=2': 4000, 'override_of_factory_param': 4000},
 }
 
@@ -107,7 +108,8 @@ class G:
       self.af_depth2 = True
     if rng.random() < 0.3:
       return gen.B('ArgFactory', kinds.fresh)       # a factory without any argument
-    n = gen.B('ArgFactory', rng.choice(UID_FNS[:2]), kw={'uid': self.uid()})
+    n = gen.B('ArgFactory', rng.choice(UID_FNS[:2] + [kinds.maybe_fail, kinds.slow_node]),
+              kw={'uid': self.uid()})
     for k in rng.sample(['a', 'b'], rng.randint(0, 2)):
       n.kw[k] = self.value(depth - 1, True, cdepth)
     return n
@@ -383,6 +385,72 @@ def run_case(rng, acc):
       ctx.bad(key, f'call {k}: factories invoked {called_f}, expected {expected_af}')
     if ctx.problems:
       break
+  # ---- a factory that raises once must not poison later calls ------------------------
+  failing = [n for n in af_top if n.fn is kinds.maybe_fail]
+  if failing and not ctx.problems:
+    victim = rng.choice(failing)
+
+    def boom(u):
+      raise RuntimeError(f'factory failure {u}')
+
+    kinds.PLAN[gen.uid_of(victim)] = boom
+    try:
+      with rec.Trace():
+        built()
+      ctx.bad('factory-exception-swallowed', 'a raising ArgFactory did not make the call fail')
+    except RuntimeError:
+      pass
+    except Exception as e:  # pylint: disable=broad-except
+      ctx.bad(f'factory-exception-replaced:{type(e).__name__}', repr(e)[:200])
+    finally:
+      kinds.PLAN.clear()
+    acc.obs('failing_factory_calls')
+    for k in (50, 51):
+      try:
+        with rec.Trace():
+          got = built()
+      except Exception as e:  # pylint: disable=broad-except
+        ctx.bad(f'call-after-failed-call-raises:{type(e).__name__}', repr(e)[:200])
+        break
+      exp = fn(*ca[0], **ca[1]) if ca is not None else None
+      if exp is not None:
+        eb = exp.bound if isinstance(exp, rec.Rec) else exp.vt_bound
+        gb = got.bound if isinstance(got, rec.Rec) else getattr(got, 'vt_bound', {})
+        for pname, e in eb.items():
+          if pname in gb:
+            verify_top(e, gb[pname], ctx, k)
+  # ---- concurrent calls of the same built partial ------------------------------------
+  slow = [n for n in af_top if n.fn is kinds.slow_node]
+  if slow and not ctx.problems and ca is not None:
+    import threading
+    outs = {}
+
+    def worker(ti):
+      res = []
+      for i in range(3):
+        try:
+          res.append(('ok', built()))
+        except Exception as e:  # pylint: disable=broad-except
+          res.append(('raise', e))
+      outs[ti] = res
+
+    ts = [threading.Thread(target=worker, args=(ti,)) for ti in range(3)]
+    for t in ts:
+      t.start()
+    for t in ts:
+      t.join(30)
+    acc.obs('concurrent_call_rounds')
+    exp = fn(*ca[0], **ca[1])
+    eb = exp.bound if isinstance(exp, rec.Rec) else exp.vt_bound
+    for ti, res in outs.items():
+      for i, (st, got) in enumerate(res):
+        if st != 'ok':
+          ctx.bad(f'concurrent-call-raises:{type(got).__name__}', repr(got)[:200])
+          break
+        gb = got.bound if isinstance(got, rec.Rec) else getattr(got, 'vt_bound', {})
+        for pname, e in eb.items():
+          if pname in gb:
+            verify_top(e, gb[pname], ctx, 200 + ti * 10 + i)
   # nested partials: probe each (call twice, compare with the model)
   if not ctx.problems:
     for n in all_nodes:
